@@ -26,6 +26,7 @@ CONSTANTS N,        \* capacity
           Mode,     \* "oneshot": Init = every layout, one call (or one view life) per behaviour; "history": from new()
           MaxCalls, \* history mode: number of calls
           MaxArg,   \* largest length of slice / iterator / array arguments
+          MaxScript,\* longest next / next_back script on a view
           Families  \* which operation families Next offers (subset of AllFamilies)
 
 AllFamilies == {"single", "positional", "bulk", "fill", "extend", "access", "iter", "drain", "ctor", "faults", "io", "conv"}
@@ -53,7 +54,7 @@ NoView == [on |-> FALSE, kind |-> "", buf_size |-> 0, rs |-> 0, re |-> 0, is |->
 \* (up to one call past exhaustion), with len() after every step or never; other forms are only
 \* measured and dropped
 Script(vw, bs, be, lens, n) ==
-    [vw EXCEPT !.short = ~(bs.t = "i" /\ be.t = "e"), !.lens = lens, !.steps = 0, !.maxsteps = n + 1]
+    [vw EXCEPT !.short = ~(bs.t = "i" /\ be.t = "e"), !.lens = lens, !.steps = 0, !.maxsteps = Min(n + 1, MaxScript)]
 LenDue == view.lens /\ ev.op # "v_len"
 
 (***************************************************************************)
@@ -413,10 +414,11 @@ Faults(r0) ==
                     ELSE {})
 
 BoundsForms(n) ==  \* every RangeBounds form with every small value, plus the extremes
-    LET xs == 0..(n + 1) IN
-    {[t |-> "u", x |-> 0]} \cup {[t |-> "i", x |-> x] : x \in xs \cup {Top}} \cup {[t |-> "e", x |-> x] : x \in xs \cup {Top}}
+    LET xs == 0..Min(n + 1, MaxU) \cup (IF MaxU >= Top THEN {Top} ELSE {}) IN
+    {[t |-> "u", x |-> 0]} \cup {[t |-> "i", x |-> x] : x \in xs} \cup {[t |-> "e", x |-> x] : x \in xs}
 
-IdxArgs == 0..(N + 1) \cup {Top}
+\* (in the small-word configurations usize::MAX is MaxU itself and N + 1 may not exist)
+IdxArgs == 0..Min(N + 1, MaxU) \cup (IF MaxU >= Top THEN {Top} ELSE {})
 
 \* the event of a completed buffer call
 MkEv(op, r, ids, i, j, vals) ==
